@@ -207,6 +207,11 @@ def add (s : Sh) (due : Nat) (id : Option Nat) (kind : Kind) (tag : Nat) : Sh ×
       | none => (signal { s1 with heap := h1, log := log1 }, .ok s.next)
     else (signal { s1 with heap := h1, log := log1 }, .ok s.next)
 
+/-- `Executor.ExecuteAfter(f, delay)` / `TaskExecutor.ExecuteAfter(id, f, delay)`: `ExecuteAt` with the due time
+`time.Now().Add(delay)`, the clock being read when the call is made. -/
+def addAfter (s : Sh) (delay : Nat) (id : Option Nat) (kind : Kind) (tag : Nat) : Sh × AddRes :=
+  add s (s.clock + delay) id kind tag
+
 /-- `TaskExecutor.ExecuteAt`, first half: take `queuedElementsMutex`, cancel the registered task.
 Its registration is dropped here already: nobody can look at the map before the second half has
 either overwritten the entry (`Set`) or deleted it (refused by the shut-down queue). -/
